@@ -252,10 +252,32 @@ def bounded(tier, seed):
     out.append(run_cases("many-level-cliques", deep, O.c02_check_clique, lambda c: True,
                          "k mutually crossing stems (k = 5, 11, 12; thorough: 13, 15) with lengths growing 5'->3': objective against the closed-form optimum of a clique",
                          f"{len(deep)} structures", sig=lambda c: f"clique-{len(stems_of(c))}", relates="convert_to_dot_bracket"))
+    # structures DERIVED by the library (without_isolated / without_pseudoknots): their own optimal notation, asked after the
+    # parent's notation has been computed - the notation is the optimum of the derived structure, not a remnant of the parent's
+    der = [q for q in shaped[::7] + comp[::3] + rnd[:20] if any(len(st) == 1 for st in stems_of(q))]
+    out.append(run_cases("derived-structures", der, derived_check, knotted,
+                         "parent.dot_bracket first, then without_isolated().dot_bracket and without_pseudoknots().dot_bracket against the brute-force optimum of the derived structure",
+                         f"{len(der)} structures with a one-pair stem", sig=repr, relates="convert_to_dot_bracket|without_isolated"))
     return out
 
 
+def derived_check(p):
+    seq = O.seq_of(p, None)
+    b = O.make_bpseq(p, seq)
+    b.dot_bracket
+    errs = []
+    for name in ("without_isolated", "without_pseudoknots"):
+        d = getattr(b, name)()
+        q = tuple(e.pair for e in d.entries)
+        if len(stems_of(q)) <= 8:
+            errs += [f"{name}(): {e}" for e in O.c02_check(q, "".join(e.sequence for e in d.entries), db=d.dot_bracket)]
+    return errs
+
+
 def replay(inp):
+    if inp.get("check") == "derived-structures":
+        errs = derived_check(tuple(inp["case"]))
+        return {"fails": bool(errs), "errors": errs[:3]}
     if inp.get("check") == "many-level-cliques":
         errs = O.c02_check_clique(tuple(inp["case"]))
         return {"fails": bool(errs), "errors": errs[:3]}
